@@ -1,5 +1,5 @@
 From Slsk Require Import Base.Tac.
-From SlskGen Require Import TransGen.
+From SlskGen Require Import TransGen TransferGen.
 From Slsk Require Import C03.Spec C03.Model.
 
 (* ---------- finite enumerations ---------- *)
@@ -392,4 +392,22 @@ Proof.
       { intros k0 m. revert k0. induction m as [|m IHm]; intros k0 t0 e0 pre; destruct k0 as [k0|]; cbn [drain]; try reflexivity.
         destruct (resume c t0 k0) as [[ta ea] ka]. rewrite <- app_assoc. apply IHm. }
       rewrite G, D. exists t2, (ed1 ++ ed2). split; reflexivity.
+Qed.
+
+(* ---------- regenerated helper methods / manager level ---------- *)
+Lemma methods_supported_b_true : methods_supported_b = true.
+Proof. vm_compute. reflexivity. Qed.
+
+Lemma mgr_thm : forall t m t' r ed, mgr_step t m = (t', r, ed) ->
+  (r = MInvalidStateTransition <-> trans (t_state t) (t_dir t) (c_op (mgr_call m)) = None) /\
+  (r = MInvalidStateTransition -> t' = t /\ ed = []) /\ edges_documented ed.
+Proof.
+  intros t m t' r ed H. unfold mgr_step in H. destruct (step_seq t (mgr_call m)) as [[t1 b] ed1] eqn:S.
+  assert (E : mgr_raises_iff_refused = true) by reflexivity. rewrite E in H. cbn [negb orb] in H. inv H.
+  destruct (step_seq_ok _ _ _ _ _ S) as [D [R [B1 B2]]]. split; [|split; [|exact D]].
+  - destruct b.
+    + split; [discriminate|]. intros N. exfalso. apply (B1 eq_refl). exact N.
+    + split; [|reflexivity]. intros _. destruct (trans (t_state t) (t_dir t) (c_op (mgr_call m))) eqn:T; [|reflexivity].
+      exfalso. assert (X : false = true) by (apply B2; discriminate). discriminate X.
+  - destruct b; [discriminate|]. intros _. apply R. reflexivity.
 Qed.
